@@ -36,7 +36,7 @@ def run_check(prop: str, repo: str, ev: str) -> tuple[int, str]:
 
 def scratch(patch: Path | None) -> Path:
     tmp = Path(tempfile.mkdtemp(prefix="verif-regress-"))
-    shutil.copytree("/repo/jsonpath", tmp / "r" / "jsonpath", ignore=shutil.ignore_patterns("__pycache__"))
+    shutil.copytree(os.environ.get("REGRESS_BASE", "/repo") + "/jsonpath", tmp / "r" / "jsonpath", ignore=shutil.ignore_patterns("__pycache__"))
     if patch is not None:
         p = subprocess.run(["patch", "-s", "-p1", "-i", str(patch)], cwd=str(tmp / "r"), capture_output=True, text=True)
         if p.returncode != 0:
